@@ -9,13 +9,14 @@ Local Open Scope list_scope.
 
 Inductive tspec :=
 | Leaf (sid : nat) (ok : bool)                      (* succeeds with a fresh value / raises its own error *)
+| SkipLeaf (sid : nat)                              (* succeeds with the value every Coalesce is told to skip (value 0) *)
 | Nest (sid : nat) (kids : list tspec)              (* dict spec: every value spec on the same target *)
 | Chain (sid : nat) (steps : list tspec)            (* tuple *)
 | Alt (sid : nat) (branches : list tspec)           (* Coalesce: all fail -> its own CoalesceError *)
 | OrS (sid : nat) (branches : list tspec)           (* Or: the last branch's error propagates *)
 | Switch (sid : nat) (cases : list (tspec * tspec)).
 
-Definition sid_of s := match s with Leaf n _ | Nest n _ | Chain n _ | Alt n _ | OrS n _ | Switch n _ => n end.
+Definition sid_of s := match s with Leaf n _ | SkipLeaf n | Nest n _ | Chain n _ | Alt n _ | OrS n _ | Switch n _ => n end.
 
 Record frame := mkF { f_spec : nat; f_target : nat; f_up : nat; f_last : option nat;
                       f_cerrs : list nat; f_err : option nat; f_nopy : bool }.
@@ -52,9 +53,12 @@ Fixpoint chain_loop (rec : recfn) (st : store) (cur res : nat) (steps : list tsp
   match steps with [] => (st, Ret res)
   | s :: r => let '(st, cur') := chain_child st cur in
               match rec st cur' res s with (st, Ret v) => chain_loop rec st cur' v r | (st, Exc e) => (st, Exc e) end end.
+(* Coalesce(skip=0): a branch that succeeds with the skipped value is passed over like a failing one, but leaves no error *)
 Fixpoint alt_loop (rec : recfn) (own_err : nat) (st : store) (f t : nat) (bs : list tspec) : store * out :=
   match bs with [] => (st, Exc own_err)
-  | b :: r => match rec st f t b with (st, Ret v) => (st, Ret v) | (st, Exc _) => alt_loop rec own_err st f t r end end.
+  | b :: r => match rec st f t b with
+              | (st, Ret v) => if Nat.eqb v 0 then alt_loop rec own_err st f t r else (st, Ret v)
+              | (st, Exc _) => alt_loop rec own_err st f t r end end.
 Fixpoint or_loop (rec : recfn) (st : store) (f t : nat) (bs : list tspec) : store * out :=
   match bs with [] => (st, Ret t)
   | [b] => rec st f t b
@@ -75,6 +79,7 @@ Fixpoint glom_ (fuel : nat) (st : store) (parent t : nat) (s : tspec) {struct fu
   let '(st, r) :=
     match s with
     | Leaf n ok => if ok then (st, Ret (2000 + n)) else (st, Exc n)
+    | SkipLeaf _ => (st, Ret 0)
     | Nest n kids => nest_loop (glom_ fuel) n st f t kids
     | Chain _ steps => chain_loop (glom_ fuel) st f t steps
     | Alt n bs => alt_loop (glom_ fuel) (5000 + n) st f t bs
